@@ -385,6 +385,11 @@ def foreign_code(name):
     return FOREIGN.index(name)
 
 
+class NonTermination(BaseException):
+    """the code under test keeps asking a finished source for more: it would never return.
+    A BaseException, so that no `except Exception` / `except OSError` in the library can swallow it."""
+
+
 class FakeSock(_socket.socket):
     """a socket whose recv() delivers a prescribed chunk schedule, then closes or times out"""
 
@@ -393,9 +398,15 @@ class FakeSock(_socket.socket):
         self._chunks = list(chunks)
         self._end = end
         self.recv_sizes = []
+        self._after_end = 0
 
     def recv(self, n, *a):
-        self.recv_sizes.append(n)
+        if len(self.recv_sizes) < 100000:
+            self.recv_sizes.append(n)
+        if not self._chunks:
+            self._after_end += 1
+            if self._after_end > 2000:
+                raise NonTermination("recv() called 2000 times after the connection ended")
         if self._chunks:
             c = self._chunks[0]
             if len(c) <= n:
@@ -406,6 +417,22 @@ class FakeSock(_socket.socket):
         if self._end == "close":
             return b""
         raise TimeoutError("timed out")
+
+
+class GuardSock(_socket.socket):
+    """a real socket that notices a caller spinning on a closed connection"""
+
+    def __init__(self, sock):
+        super().__init__(sock.family, sock.type, sock.proto, fileno=sock.detach())
+        self._empties = 0
+
+    def recv(self, n, *a):
+        d = super().recv(n, *a)
+        if d == b"":
+            self._empties += 1
+            if self._empties > 2000:
+                raise NonTermination("recv() called 2000 times after the peer closed the connection")
+        return d
 
 
 def verdict_for(proto, raw, mode, val):
@@ -448,6 +475,8 @@ def reader_run(stream_obj, q, filt, parsing, mode, val, bf, bufsize=4096):
             else:
                 p = "P"
             items.append(f"{proto}:{raw.hex()}:{p}")
+    except NonTermination:
+        crashed = "NonTermination"
     except Exception as e:  # noqa
         n = errname(e)
         known = ["UBXMessageError", "UBXTypeError", "UBXParseError", "UBXStreamError"] + NCODES + RCODES
@@ -554,6 +583,8 @@ def handle_sockread(t):
                 else:
                     out.append("ok:" + hx(d))
         return " ".join(out)
+    except NonTermination:
+        return " ".join(out + ["never-returns"])
     finally:
         sock.close()
 
